@@ -89,6 +89,10 @@ func Call(
 	if err != nil {
 		return nil, err
 	}
+	if obj == nil {
+		// the name is declared in the code but was never assigned
+		return nil, fmt.Errorf("object is not a function (got: nil)")
+	}
 	fn, ok := obj.(*object.Function)
 	if !ok {
 		return nil, fmt.Errorf("object is not a function (got: %s)", obj.Type())
